@@ -1285,6 +1285,28 @@ def map_lookup(I, st, m, key, k_hit, k_miss, depth=0):
     go(0, st)
 
 
+@model(r'^' + MAPTY + r'::<.*>::retain::<', 'map/set retain (the predicate is interpreted on every entry)')
+def m_map_retain(I, st, c, args, cont, depth, site):
+    is_set = bool(re.search(r'(HashSet|BTreeSet)::<', c))
+    r, m = map_at(I, st, args[0])
+    n = len(m.items)
+
+    def step(i, st, keep):
+        if i >= n:
+            r2, m2 = map_at(I, st, args[0])
+            I.write_ref(st, r2, MapVal(tuple(m2.items[j] for j in keep), m2.kind))
+            return cont(st, unit())
+        kref = Ref(r.key, r.path + (('mapkey', i),))
+        vref = Ref(r.key, r.path + (('mapval', i),))
+
+        def got(s2, b):
+            if b is PANIC:
+                return cont(s2, PANIC)
+            fork_bool(I, s2, b, lambda s3: step(i + 1, s3, keep + (i,)), lambda s3: step(i + 1, s3, keep))
+        I.call_closure(st, args[1], [kref] if is_set else [kref, vref], got, depth)
+    step(0, st, ())
+
+
 @model(r'^' + MAPTY + r'::<.*>::(insert|contains|contains_key|get|get_mut|remove|len|is_empty|reserve|clear|iter|keys|values|iter_mut|values_mut)(::<.*>)?$', 'hash/btree container ops (association list, lookups fork on key equality)')
 def m_map_ops(I, st, c, args, cont, depth, site):
     op = re.search(r'::(\w+)(::<.*>)?$', c).group(1)
